@@ -232,7 +232,10 @@ int main(int argc, char** argv) {
   } else {
     for (auto& o : all_outs) {
       std::string k = o; k.push_back('\0'); if (!nocmd) k += key; k.push_back('\0'); if (!nocmd) k += rsp_content; k.push_back('\0');
-      for (auto& pc : rd) { k += pc.first; k.push_back('\0'); k += pc.second; k.push_back('\0'); }
+      for (auto& pc : rd) {
+        if (pc.second == "// hollow\n") continue;   // read and reported, but nothing in it reaches the output (simlib.HOLLOW)
+        k += pc.first; k.push_back('\0'); k += pc.second; k.push_back('\0');
+      }
       std::string c = "G" + HashHex(k);
       if (restat) { std::string old; if (ReadFile(o, &old) && old == c) continue; }
       if (!WriteFileMode(o, c, atomic)) { fprintf(stderr, "vtool: cannot write %s: %s\n", o.c_str(), strerror(errno)); Log("E", "1 write"); return 1; }
